@@ -389,6 +389,27 @@ def run(ctx):
         else:
             measured.setdefault("jit_diff_%s_n_iter>1 (reported, not asserted)" % cfg["optimizer"], []).append(diff)
 
+    # ---- documented options that draw a subsample of the cells: d_method="fractal" samples when there are more than 500 cells.
+    #      Preparing the same problem several times in one process gives the same dimensionality, mean and starting point, bit for bit.
+    try:
+        import mellon as _m
+        Xfr = np.random.default_rng(ctx.seed + 17).normal(size=(700, 3)) * np.array([1.0, 0.6, 0.3])
+        seen_fr = []
+        for rep in range(3):
+            efr = _m.DensityEstimator(d_method="fractal", landmarks=Xfr[:15] + 0.01, optimizer="adam", n_iter=1, jit=False)
+            efr.prepare_inference(Xfr)
+            seen_fr.append((np.asarray(efr.d, dtype=float).tobytes(), np.asarray(efr.mu, dtype=float).tobytes(),
+                            np.asarray(efr.initial_value, dtype=float).tobytes()))
+            evals += 1
+        if len(set(seen_fr)) != 1:
+            ctx.violation("C17|repeat-in-process|d_method=fractal", "preparing the same problem with d_method='fractal' (700 cells) repeatedly in one process gives different d / mu / initial_value",
+                          {"x": "default_rng(verif_seed + 17).normal(size=(700, 3)) * [1, 0.6, 0.3]", "verif_seed": ctx.seed,
+                           "call": "DensityEstimator(d_method='fractal', landmarks=x[:15] + 0.01, optimizer='adam', n_iter=1, jit=False).prepare_inference(x), three times",
+                           "d_values": [float(np.frombuffer(t_[0])[0]) for t_ in seen_fr], "mu_values": [float(np.frombuffer(t_[1])[0]) for t_ in seen_fr]})
+        dist["fractal-repeat"] = 3
+    except Exception as e:  # noqa
+        ctx.violation("C17|repeat-in-process|d_method=fractal|%s" % type(e).__name__, "prepare_inference with d_method='fractal' raises",
+                      {"exception": "%s: %s" % (type(e).__name__, str(e)[:200])})
     # ---- fresh interpreters
     fresh = []
     for outp, pr in procs:
